@@ -722,7 +722,7 @@ func (e *Exec) isLogFunc(fn *ssa.Function) bool {
 		return false
 	}
 	p := fn.Pkg.Pkg.Path()
-	if p == "github.com/containerd/nri/pkg/log" || p == "github.com/sirupsen/logrus" {
+	if p == "github.com/containerd/nri/pkg/log" || p == "github.com/sirupsen/logrus" || p == "github.com/containerd/log" {
 		return true
 	}
 	return false
@@ -1225,6 +1225,19 @@ func (e *Exec) execCall(g *G, fr *Frame, in *ssa.Call, call *ssa.CallCommon, nes
 	if vo := e.visibleCall(g, fr, call); vo != nil {
 		if !e.grantOrPark(g, vo, nested) {
 			return
+		}
+	}
+	// calls through function variables of logging packages (e.g. containerd/log.G) are no-ops
+	if !call.IsInvoke() {
+		if ld, ok := call.Value.(*ssa.UnOp); ok {
+			if gl, ok := ld.X.(*ssa.Global); ok && gl.Pkg != nil {
+				switch gl.Pkg.Pkg.Path() {
+				case "github.com/containerd/log", "github.com/sirupsen/logrus", "github.com/containerd/nri/pkg/log":
+					fr.env[in] = e.zeroResults(call.Signature())
+					fr.pc++
+					return
+				}
+			}
 		}
 	}
 	fn, args := e.prepareCall(g, fr, call)
